@@ -48,6 +48,8 @@ def run(an: Analysis, rep):
     rep.rule("R14.1", "__iter__ visits every type-graph route from CodeData to a nested CodeData", 2)
     rep.rule("R14.2", "all_code_data yields self first, then recurses over iter(self)", 3)
     rep.rule("R14.3", "nested code constants are decoded by CodeData.from_code; reference walk recurses over co_consts", 2)
+    from rules.common import purity
+    rep.run(purity, an, rep, "R14.P", ["iter", "all_code_data", "from_code"])
     tg = an.tg
     ci = an.prog.cls(ROOT)
     it, ret = an.interp("iter")
